@@ -110,13 +110,19 @@ def split_cfg(cn):
     return base, (kind or "response")
 
 
+HUGE_TIMEOUT_S = 4295.2          # just above 2^32 microseconds
+HUGE_T = 34361                   # ... in ticks of 125 ms
+
+
 def _run_case(client, cfg, strays, match, tick=TICK, reply="response"):
     from gufo.snmp import SnmpVersion
+    huge = reply == "huge"
+    reply = "response" if huge else reply
     sched = [(s, "stray") for s in strays] + ([(match, "match")] if match else [])
     agent = TimedAgent(cfg, sched, tick, reply)
     agent.start()
     ver = {"v1": SnmpVersion.v1, "v2c": SnmpVersion.v2c, "v3": SnmpVersion.v3}[cfg.ver]
-    kw = dict(port=agent.port, community=cfg.community, version=ver, timeout=T * tick, tos=agent.net[2], send_buffer=agent.net[3], recv_buffer=agent.net[4])
+    kw = dict(port=agent.port, community=cfg.community, version=ver, timeout=T * tick if not huge else HUGE_TIMEOUT_S, tos=agent.net[2], send_buffer=agent.net[3], recv_buffer=agent.net[4])
     if cfg.ver == "v3":
         kw.update(engine_id=cfg.engine, user=apidrv.user_of(cfg))
     result = "?"
@@ -368,6 +374,9 @@ def _run_pair(client, cfg, stray_at, second_reply_at):
 
 
 def event(client, cfgname, strays, match, result, el, tick=TICK, signals=False):
+    if split_cfg(cfgname)[1] == "huge":
+        return dict(ev="Timed", signals=bool(signals), client=client, ver=cfgname, reply="response", T=HUGE_T, tick_ms=int(tick * 1000), strays=list(strays), match=match, result=result,
+                    elapsed_ms=el, slack_ms=SLACK_MS, early_ms=EARLY_MS)
     return dict(ev="Timed", signals=bool(signals), client=client, ver=cfgname, reply=split_cfg(cfgname)[1], T=T, tick_ms=int(tick * 1000), strays=list(strays), match=match, result=result, elapsed_ms=el,
                 slack_ms=SLACK_MS, early_ms=EARLY_MS)
 
@@ -420,6 +429,10 @@ def run(tier):
     for client in ("sync", "async"):
         for cn, k in [("v3-md5#report", ((), 3)), ("v3-md5#report", ((1,), 3)), ("v3-noauth#report", ((), 2)), ("v2c#nosuch", ((1,), 3)), ("v2c#nosuch", ((), 1))] + \
                      ([("v3-sha1-aes#report", ((2,), 3)), ("v3-md5#report", ((), 1))] if thorough else []):
+            cases.append((client, cn, k, TICK))
+    # timeouts of more than 2^32 microseconds (71 minutes): a skipped datagram, then the matching reply half a second later
+    for client in ("sync", "async"):
+        for cn, k in [("v2c#huge", ((1,), 4)), ("v3-md5#huge", ((1, 2), 5))]:
             cases.append((client, cn, k, TICK))
     # stray floods across the deadline (no reply): TimeoutError at the timeout, nothing else
     for cn in (["v2c", "v3-md5"] if not thorough else ["v2c", "v1", "v3-md5"]):
@@ -583,7 +596,7 @@ def run(tier):
         if confirmed:
             late = "late-match" if match >= T else ("match" if match else "none")
             sig = dict(client=client, nstrays=len(strays) if len(strays) < 2 else "2+", reply=late, result=evs[0]["result"], timeout_over_1s=T * abs(tick) > 1.0, flood=tick < 0)
-            chk.violation(sig, "%s %s get(), timeout %.3f s, %s, reply at %s: %s after %d ms (three runs: %s)" % (client, cn, T * abs(tick), ("strays at %s ticks" % list(strays)) if tick > 0 else "a stray every 0.3 ms from 0.6 T to 1.5 T", match or "never",
+            chk.violation(sig, "%s %s get(), timeout %.3f s, %s, reply at %s: %s after %d ms (three runs: %s)" % (client, cn, HUGE_TIMEOUT_S if cn.endswith("#huge") else T * abs(tick), ("strays at %s ticks" % list(strays)) if tick > 0 else "a stray every 0.3 ms from 0.6 T to 1.5 T", match or "never",
                           evs[0]["result"], evs[0]["elapsed_ms"], [x["elapsed_ms"] for x in evs]), dict(client=client, cfg=cn, strays=list(strays), match=match, tick=tick, runs=evs))
     chk.sample(dict(kind="timed-run", event=rec.events[5]))
     chk.assumptions += ["wall-clock measurement with %d ms slack; a regression smaller than the slack is not detected" % SLACK_MS,
